@@ -275,7 +275,9 @@ func BuildRequest(r *Request, param string) *plugin.CodeGeneratorRequest {
 		files = append(files, renderFile(r, &r.Deps[i], base))
 		depNames = append(depNames, r.Deps[i].Name)
 	}
-	files = append(files, renderFile(r, &r.File, append(append([]string{}, base...), depNames...)))
+	// the generated file also imports descriptor.proto directly, as a file that declares an option of its own does
+	// (`extend google.protobuf.FieldOptions`): its Go package then appears among the imports of both generated files
+	files = append(files, renderFile(r, &r.File, append(append([]string{"google/protobuf/descriptor.proto"}, base...), depNames...)))
 	return &plugin.CodeGeneratorRequest{
 		FileToGenerate: []string{r.File.Name},
 		Parameter:      proto.String(param),
@@ -284,7 +286,8 @@ func BuildRequest(r *Request, param string) *plugin.CodeGeneratorRequest {
 }
 
 // WKTParam maps the well-known types to gogo's packages; needed by both generators.
-const WKTParam = "Mgoogle/protobuf/timestamp.proto=github.com/gogo/protobuf/types,Mgoogle/protobuf/duration.proto=github.com/gogo/protobuf/types"
+const WKTParam = "Mgoogle/protobuf/timestamp.proto=github.com/gogo/protobuf/types,Mgoogle/protobuf/duration.proto=github.com/gogo/protobuf/types," +
+	"Mgoogle/protobuf/descriptor.proto=github.com/gogo/protobuf/protoc-gen-gogo/descriptor"
 
 // ParamString renders the CLI parameters (in order), the config= parameter and the WKT mappings.
 func ParamString(cli []KV, configPath string) string {
